@@ -75,6 +75,7 @@ type TxSpec struct {
 	Fee       string    `json:"fee"` // coins string, "" = none
 	Gas       uint64    `json:"gas"`
 	Granter   int       `json:"granter,omitempty"`   // 1-based actor idx of fee granter, 0 = none
+	Payer     int       `json:"payer,omitempty"`     // 1-based actor idx of an explicit fee payer (co-signs); 0 = the first signer pays
 	SigFault  string    `json:"sig_fault,omitempty"` // "", wrong_key, wrong_chain, wrong_accnum, missing
 	SeqDelta  int       `json:"seq_delta,omitempty"`
 	Replay    bool      `json:"replay,omitempty"` // re-deliver the last bytes this signer produced (duplicate)
